@@ -13,7 +13,7 @@ use rustrtc::{PeerConnection, PeerConnectionState, RtcConfiguration, SessionDesc
 use std::time::{Duration, Instant};
 
 #[derive(Clone, Copy, Debug, PartialEq)]
-pub enum PcTamper { None, Offer, Answer }
+pub enum PcTamper { None, Offer, Answer, AnswerAs(char) }
 
 pub struct PcOutcome { pub offerer: String, pub answerer: String, pub offerer_ever_connected: bool, pub answerer_ever_connected: bool, pub setup_answer_active: bool }
 
@@ -26,14 +26,24 @@ async fn gather(pc: &PeerConnection) -> bool {
     true
 }
 
-fn with_other_fingerprint(d: &SessionDescription) -> Option<SessionDescription> {
+/// the description with every `a=fingerprint` value replaced: `None` = the fingerprint of some other certificate,
+/// `Some(k)` = a rewriting of the *right* value (letters as in `c02::expected_variant`: 1 h p x d = truncations /
+/// extension / odd digit count, which denote something else or nothing; l c = lower case / no colons, which
+/// denote the same 32 bytes and must still connect)
+fn with_fingerprint(d: &SessionDescription, kind: Option<char>) -> Option<SessionDescription> {
     let other = rustrtc::transports::dtls::generate_certificate().ok()?;
-    let fp = rustrtc::transports::dtls::fingerprint(&other);
+    let other_fp = rustrtc::transports::dtls::fingerprint(&other);
     let text = d.to_sdp_string();
     let mut out = String::new();
     let mut n = 0;
     for line in text.lines() {
-        if line.starts_with("a=fingerprint:") { out.push_str(&format!("a=fingerprint:sha-256 {fp}")); n += 1; } else { out.push_str(line); }
+        if let Some(v) = line.strip_prefix("a=fingerprint:sha-256 ") {
+            let full = v.trim().to_string();
+            let newv = match kind { None => other_fp.clone(), Some('1') => full[..2].to_string(), Some('h') => full[..47].to_string(),
+                Some('p') => full[..92].to_string(), Some('x') => format!("{full}:00"), Some('d') => full[..94].to_string(),
+                Some('l') => full.to_ascii_lowercase(), Some('c') => full.replace(':', ""), _ => full };
+            out.push_str(&format!("a=fingerprint:sha-256 {newv}")); n += 1;
+        } else { out.push_str(line); }
         out.push_str("\r\n");
     }
     if n == 0 { return None; }
@@ -50,15 +60,20 @@ pub async fn pc_session(t: PcTamper, wait: Duration) -> Option<PcOutcome> {
     if !gather(&pc1).await { return None; }
     let offer = pc1.create_offer().await.ok()?;
     pc1.set_local_description(offer.clone()).ok()?;
-    let offer_seen = if t == PcTamper::Offer { with_other_fingerprint(&offer)? } else { offer };
+    let offer_seen = if t == PcTamper::Offer { with_fingerprint(&offer, None)? } else { offer };
     pc2.set_remote_description(offer_seen).await.ok()?;
     let _ = pc2.create_answer().await.ok()?;
     if !gather(&pc2).await { return None; }
     let answer = pc2.create_answer().await.ok()?;
     let setup_answer_active = answer.to_sdp_string().contains("a=setup:active");
     pc2.set_local_description(answer.clone()).ok()?;
-    let answer_seen = if t == PcTamper::Answer { with_other_fingerprint(&answer)? } else { answer };
-    pc1.set_remote_description(answer_seen).await.ok()?;
+    let answer_seen = match t { PcTamper::Answer => with_fingerprint(&answer, None)?, PcTamper::AnswerAs(k) => with_fingerprint(&answer, Some(k))?, _ => answer };
+    // a description the stack refuses outright is as good as a handshake that fails
+    if pc1.set_remote_description(answer_seen).await.is_err() {
+        let o = PcOutcome { offerer: "RejectedDescription".into(), answerer: "-".into(), offerer_ever_connected: false, answerer_ever_connected: false, setup_answer_active };
+        pc1.close(); pc2.close();
+        return Some(o);
+    }
     let (r1, r2) = (pc1.subscribe_peer_state(), pc2.subscribe_peer_state());
     let (mut c1, mut c2) = (false, false);
     let t0 = Instant::now();
@@ -78,14 +93,25 @@ pub async fn pc_session(t: PcTamper, wait: Duration) -> Option<PcOutcome> {
 
 pub fn run_cases(run: &mut crate::Run, reps: usize) {
     let rt = tokio::runtime::Builder::new_multi_thread().worker_threads(2).enable_all().build().unwrap();
-    for t in [PcTamper::None, PcTamper::Offer, PcTamper::Answer] {
+    let mut cases = vec![PcTamper::None, PcTamper::Offer, PcTamper::Answer];
+    for k in ['1', 'h', 'p', 'x', 'd', 'l', 'c'] { cases.push(PcTamper::AnswerAs(k)); }
+    for t in cases {
         for _ in 0..reps {
-            let name = format!("pc {t:?}").to_lowercase();
+            let name = match t { PcTamper::AnswerAs(k) => format!("pc answer-as-{k}"), _ => format!("pc {t:?}").to_lowercase() };
             let Some(o) = rt.block_on(pc_session(t, Duration::from_secs(6))) else { run.count("pc_session_inconclusive"); continue; };
             run.count(&format!("pc:{t:?}:offerer={}:answerer={}", o.offerer, o.answerer));
             let detail = format!("offerer {} (ever connected {}), answerer {} (ever connected {}), answerer is DTLS client: {}", o.offerer, o.offerer_ever_connected, o.answerer, o.answerer_ever_connected, o.setup_answer_active);
             match t {
                 PcTamper::None => if !(o.offerer_ever_connected && o.answerer_ever_connected) { run.fail("pc:untampered-descriptions-did-not-connect", &name, &detail); },
+                // the same 32 bytes written differently: `SdpFingerprint::parse` normalises, so this must work like the control
+                PcTamper::AnswerAs('l') | PcTamper::AnswerAs('c') => if !(o.offerer_ever_connected && o.answerer_ever_connected) { run.fail("pc:equivalent-fingerprint-text-did-not-connect", &name, &detail); },
+                // a value that is a prefix / an extension of the right one, or has an odd digit count: the side that is
+                // DTLS client must never be Connected (refusing the description is fine too)
+                PcTamper::AnswerAs(k) => {
+                    let victim_is_client = !o.setup_answer_active;
+                    if o.offerer_ever_connected && victim_is_client { run.fail(&format!("pc:connected-though-the-signalled-fingerprint-is-not-the-32-byte-digest:{k}"), &name, &detail); }
+                    run.count(&format!("pc:answer-as-{k}:offerer={}", o.offerer));
+                }
                 PcTamper::Offer | PcTamper::Answer => {
                     // the side that was handed the wrong fingerprint
                     let (victim, ever, victim_is_client) = if t == PcTamper::Offer { ("answerer", o.answerer_ever_connected, o.setup_answer_active) }
@@ -101,7 +127,8 @@ pub fn run_cases(run: &mut crate::Run, reps: usize) {
 }
 
 pub fn replay(case: &str) {
-    let t = match case.trim() { "pc offer" => PcTamper::Offer, "pc answer" => PcTamper::Answer, _ => PcTamper::None };
+    let t = match case.trim() { "pc offer" => PcTamper::Offer, "pc answer" => PcTamper::Answer,
+        x if x.starts_with("pc answer-as-") => PcTamper::AnswerAs(x.chars().last().unwrap_or('1')), _ => PcTamper::None };
     let rt = tokio::runtime::Builder::new_multi_thread().worker_threads(2).enable_all().build().unwrap();
     match rt.block_on(pc_session(t, Duration::from_secs(6))) {
         Some(o) => println!("offerer={} ever_connected={} answerer={} ever_connected={} answerer_is_dtls_client={}", o.offerer, o.offerer_ever_connected, o.answerer, o.answerer_ever_connected, o.setup_answer_active),
